@@ -101,3 +101,13 @@ package control
 //@   ensures  err != nil ==> __is(err, control.ErrUnauthorized)
 //@   ensures  err == nil ==> __eq(r, g.region.resource)
 //@   modifies nothing
+
+//@ # ---------------------------------------------------------------- lock discipline (C09)
+//@ guarded_by region.curr .
+//@ guarded_by region.gates .
+//@ guarded_by region.counter .
+//@ guarded_by region.timeRange .
+//@ guarded_by region.resource .
+//@ guarded_by Controller.regions mu
+//@ requires_held region.shouldBeInControl . R
+//@ lock_order Controller.mu < region
